@@ -68,6 +68,16 @@ func Walk(ctx context.Context, fileSystem fs.FS, prefix, delimiter, marker strin
 		}
 	}
 
+	// a prefix that points into a skipped directory starts the walk below
+	// it, where the name check of the walk never sees it: nothing matches
+	if root != "." {
+		for _, elem := range strings.Split(root, "/") {
+			if contains(elem, skipdirs) {
+				return WalkResults{}, nil
+			}
+		}
+	}
+
 	err := fs.WalkDir(fileSystem, root, func(path string, d fs.DirEntry, err error) error {
 		if err != nil {
 			return err
